@@ -852,7 +852,7 @@ pub fn wal_leg(args: &Args) {
         }
         return rep.finish(args);
     }
-    let n = args.get_u64("layouts", if args.thorough() { 1600 } else { 48 });
+    let n = args.get_u64("layouts", if args.thorough() { 1600 } else { 192 });
     for li in (0..n).filter(|li| li % args.shards as u64 == args.shard as u64) {
         let mut rng = rng_from(args.seed, 10_000 + li);
         if li == 0 {
